@@ -112,7 +112,7 @@ def gen_cases(tier, seed):
                 for j, sk, ek in colls:
                     if ek == "file":
                         pre.append({"p": "dst/%s.~3~" % names[j], "k": "f", "size": 6, "seed": 12, "segs": None})
-        for o in ("--fsync", "--no-perms", "--no-timestamps", "--ownership", "--gitignore"):
+        for o in ("--fsync", "--no-perms", "--no-timestamps", "--ownership", "--gitignore", "-L", "-v"):
             if r.random() < 0.15:
                 extra.append(o)
         if r.random() < 0.2:
